@@ -290,6 +290,25 @@ func main() {
 		byClass[r.Class] = append(byClass[r.Class], r)
 	}
 	sort.Strings(classes)
+	// minimise one representative per class (at most 6), in parallel, each under a wall budget
+	{
+		var swg sync.WaitGroup
+		for i, cl := range classes {
+			if i >= 6 {
+				break
+			}
+			rs := byClass[cl]
+			sort.Slice(rs, func(i, j int) bool { return rs[i].NChoices < rs[j].NChoices })
+			if rf, err := simcore.ReadReplay(rs[0].Replay); err == nil && !rf.Minimised {
+				swg.Add(1)
+				go func(path string) {
+					defer swg.Done()
+					shrinkExternal(*bin, *prop, path, sp)
+				}(rs[0].Replay)
+			}
+		}
+		swg.Wait()
+	}
 	reported := 0
 	for _, cl := range classes {
 		rs := byClass[cl]
@@ -368,7 +387,7 @@ func workerCmd(bin, prop string, env ...string) *exec.Cmd {
 
 // runWorker runs one chunk; returns a non-empty message on harness trouble.
 func runWorker(bin, prop, tier, harness string, seed uint64, from, to int, a *agg, sp spec) string {
-	cmd := workerCmd(bin, prop, "VERIF_HARNESS="+harness, "VERIF_TIER="+tier, fmt.Sprintf("VERIF_SEED=%d", seed), fmt.Sprintf("VERIF_FROM=%d", from), fmt.Sprintf("VERIF_TO=%d", to), "VERIF_MODE=batch")
+	cmd := workerCmd(bin, prop, "VERIF_HARNESS="+harness, "VERIF_TIER="+tier, fmt.Sprintf("VERIF_SEED=%d", seed), fmt.Sprintf("VERIF_FROM=%d", from), fmt.Sprintf("VERIF_TO=%d", to), "VERIF_MODE=batch", "VERIF_SHRINK_MAX=0")
 	var stderr bytes.Buffer
 	cmd.Stderr = &stderr
 	out, err := cmd.StdoutPipe()
